@@ -331,9 +331,11 @@ class C19(Property):
             return 0
         saved = _json.loads
         saved_local = jsonutils.__dict__.get('loads')
+        saved_dec = _json.JSONDecoder.decode
         tset = []
         try:
             _json.loads = recorder
+            _json.JSONDecoder.decode = lambda self_, s_, *a, **kw: recorder(s_)
             if saved_local is saved:
                 jsonutils.loads = recorder
             with time_limit(30):
@@ -348,6 +350,7 @@ class C19(Property):
                         raise ValueError('JSONLIterator handed json.loads %r for the text probe U+%04X' % (seen, c))
         finally:
             _json.loads = saved
+            _json.JSONDecoder.decode = saved_dec
             if saved_local is saved:
                 jsonutils.loads = saved
         return tset
@@ -367,9 +370,12 @@ class C19(Property):
             return 0
         saved = _json.loads
         saved_local = jsonutils.__dict__.get('loads')
+        saved_dec = _json.JSONDecoder.decode
         lset, rset = [], []
         try:
             _json.loads = recorder
+            # a code that decodes through a JSONDecoder object instead of json.loads is observed just the same
+            _json.JSONDecoder.decode = lambda self_, s_, *a, **kw: recorder(s_)
             if saved_local is saved:
                 jsonutils.loads = recorder
             with time_limit(20):
@@ -378,14 +384,18 @@ class C19(Property):
                         del seen[:]
                         for _ in jsonutils.JSONLIterator(io.BytesIO(probe), ignore_errors=True):
                             pass
-                        got = [bytes(x) if isinstance(x, (bytes, bytearray)) else x for x in seen]
+                        got = [bytes(x) if isinstance(x, (bytes, bytearray)) else
+                               (x.encode('utf-8', 'surrogatepass') if isinstance(x, str) else x) for x in seen]
                         kept = (bytes([b]) + b'Q') if which == 'l' else (b'Q' + bytes([b]))
                         if got == [b'Q']:
                             (lset if which == 'l' else rset).append(b)
+                        elif got == [] and b >= 0x80:
+                            pass    # the code decoded the line itself before handing it on and could not: b was kept
                         elif got != [kept]:
                             raise ValueError('JSONLIterator handed json.loads %r for the probe %r' % (got, probe))
         finally:
             _json.loads = saved
+            _json.JSONDecoder.decode = saved_dec
             if saved_local is saved:
                 jsonutils.loads = saved
         return lset, rset
